@@ -1040,7 +1040,7 @@ pub fn run_streams(ctx: &mut crate::Ctx, base: u64) {
     }
     // (5) large definition graphs (8–40 definitions)
     let mut rng = ctx.rng(base + 2);
-    let n = if ctx.quick() { 3_000 } else { 30_000 };
+    let n = if ctx.quick() { 2_000 } else { 20_000 };
     for _ in 0..n {
         let c = random_big_case(&mut rng);
         emit_case(ctx, &c);
